@@ -22,7 +22,7 @@ structure SameC (s s' : St) : Prop where
 
 theorem Cert.of_sameC {env : Env} {s s' : St} (h : SameC s s') {n : Node} {v : Val} {tr : Tr}
     (c : Cert env s n v tr) : Cert env s' n v tr := by
-  refine ⟨c.replay, c.noneOK, ?_⟩
+  refine ⟨c.replay, c.noneOK, ?_, fun a ha => c.just a (h.ge ▸ ha)⟩
   intro ev hm
   have := c.events ev hm
   cases ev with
@@ -49,6 +49,8 @@ structure PresH (s s' : St) : Prop where
   rank : ∀ a b, Held s a → Held s b → rank s.data a < rank s.data b → rank s'.data a < rank s'.data b
   edges : ∀ a n, (a, GNode.elem n) ∈ s.ge → SrcOK s a → Held s n → (a, GNode.elem n) ∈ s'.ge
   rg : ∀ e ∈ s.rg, e ∈ s'.rg
+  /-- no edge INTO a held element is added -/
+  noNewIn : ∀ a n, Held s n → (a, GNode.elem n) ∈ s'.ge → (a, GNode.elem n) ∈ s.ge
 
 theorem Held.ext {s s' : St} (h : Ext s s') {m : Node} (hm : Held s m) : Held s' m := by
   unfold Held at hm ⊢
@@ -57,10 +59,11 @@ theorem Held.ext {s s' : St} (h : Ext s s') {m : Node} (hm : Held s m) : Held s'
   | some v => rw [h m v hl]; rfl
 
 theorem PresH.refl (s : St) : PresH s s :=
-  ⟨Ext.refl s, fun _ _ _ _ h => h, fun _ _ h _ _ => h, fun _ h => h⟩
+  ⟨Ext.refl s, fun _ _ _ _ h => h, fun _ _ h _ _ => h, fun _ h => h, fun _ _ _ h => h⟩
 
 theorem PresH.trans {a b c : St} (h1 : PresH a b) (h2 : PresH b c) : PresH a c := by
-  refine ⟨h1.ext.trans h2.ext, ?_, ?_, fun e he => h2.rg e (h1.rg e he)⟩
+  refine ⟨h1.ext.trans h2.ext, ?_, ?_, fun e he => h2.rg e (h1.rg e he),
+    fun x n hn hx => h1.noNewIn x n hn (h2.noNewIn x n (hn.ext h1.ext) hx)⟩
   · intro x y hx hy hlt
     exact h2.rank x y (hx.ext h1.ext) (hy.ext h1.ext) (h1.rank x y hx hy hlt)
   · intro x n hxn hx hn
@@ -71,11 +74,12 @@ theorem PresH.trans {a b c : St} (h1 : PresH a b) (h2 : PresH b c) : PresH a c :
 
 theorem PresH.of_sameC {s s' : St} (h : SameC s s') : PresH s s' :=
   ⟨Ext.of_data h.data, fun _ _ _ _ hlt => by rw [h.data]; exact hlt,
-   fun _ _ he _ _ => by rw [h.ge]; exact he, fun _ he => by rw [h.rg]; exact he⟩
+   fun _ _ he _ _ => by rw [h.ge]; exact he, fun _ he => by rw [h.rg]; exact he,
+   fun _ _ _ he => h.ge ▸ he⟩
 
 theorem Cert.presH {env : Env} {s s' : St} (h : PresH s s') {n : Node} {v : Val} {tr : Tr}
     (hn : Held s n) (c : Cert env s n v tr) : Cert env s' n v tr := by
-  refine ⟨c.replay, c.noneOK, ?_⟩
+  refine ⟨c.replay, c.noneOK, ?_, fun a ha => c.just a (h.noNewIn a n hn ha)⟩
   intro ev hm
   have hok := c.events ev hm
   cases ev with
